@@ -106,6 +106,18 @@ def configure(f, cfg, as_tuple=False):
     f.color = False
 
 
+def request_lazy(f, blob, kind, tc):
+    """make the request now, read it later: returns a function that reads the answer."""
+    if kind == 'traces':
+        g = f.traces(io.BytesIO(blob), tc)
+        return lambda: [(t.ktraces[0].tid, t.ktraces[0].eventid, str(t), t.ktraces[0].timestamp) for t in g]
+    if kind == 'formatted_traces':
+        g = f.formatted_traces(io.BytesIO(blob), tc)
+        return lambda: list(g)
+    g = f.callstacks(io.BytesIO(blob), tc)
+    return lambda: [(c.timestamp, c.tid, tuple(tuple(fr) for fr in c.frames)) for c in g]
+
+
 def request(f, blob, kind, tc):
     if kind == 'traces':
         return [(t.ktraces[0].tid, t.ktraces[0].eventid, str(t), t.ktraces[0].timestamp) for t in f.traces(io.BytesIO(blob), tc)]
@@ -179,11 +191,41 @@ HIST_STREAMS = [
     # a dump cut in the middle of operations: begins with an END whose START is missing, ends with a START whose END is missing
     (('read-end-only', 1), ('getpid', 1), ('read-start-only', 1)),
     (('read-end-only', 2), ('open+lookup', 1), ('read-start-only', 2), ('read-start-only', 1)),
+    # the stream changes the tables while it is decoded (a rename, a new thread): a later request starts from the dump's own map again
+    (('getpid', 1), ('exec-rename', 1), ('getpid', 1), ('newthread-pair', 2), ('getpid@7', 1)),
 ]
 
 
 def strip_attribution(obs):
     return [(ts, tid, tuple((fr[0],) for fr in frames)) for ts, tid, frames in obs]
+
+
+def judge_lazy(si, cfg, hist, reverse):
+    """all requests of the history are MADE on one object before any of them is read; then they are read one after the other
+    (in the order made, or in reverse): each answer equals the answer of a fresh object."""
+    blob = build_stream(HIST_STREAMS[si])
+    f = PyKdebugParser()
+    configure(f, cfg, False)
+    try:
+        readers = [request_lazy(f, blob, kind, tcodes()) for kind in hist]
+        order = list(range(len(hist)))[::-1] if reverse else list(range(len(hist)))
+        got = {}
+        for i in order:
+            got[i] = readers[i]()
+    except Exception as ex:
+        return (f'repeated-request-raised:{type(ex).__name__}', {'error': repr(ex)[:200], 'lazy': True})
+    done = []
+    for i in order:
+        fresh = PyKdebugParser()
+        configure(fresh, cfg, False)
+        exp = request(fresh, blob, hist[i], tcodes())
+        if got[i] != exp:
+            if hist[i] == 'callstacks' and 'callstacks' in done and strip_attribution(got[i]) == strip_attribution(exp):
+                return ('callstacks-image-lists-persist-across-requests', {'step': i, 'got': repr(got[i])[:300], 'fresh': repr(exp)[:300]})
+            return ('repeated-request-differs-from-first:requests-made-before-any-was-read', {'request': hist[i], 'index': i, 'read_in_reverse': reverse,
+                                                                                             'got': repr(got[i])[:300], 'fresh': repr(exp)[:300]})
+        done.append(hist[i])
+    return None
 
 
 def judge_history(si, cfg, as_tuple, hist):
@@ -223,7 +265,7 @@ class C13(Check):
             'the filter, also on streams with a 300-record call and with class lists that repeat an entry (the process a trace belongs to is the one its thread has when the trace is reported, read from the unfiltered run). (B) request histories: all sequences of <=3 requests over {traces, formatted_traces, callstacks} on one '
             'parser object x 11 streams (incl. samples before/after image announcements, a string id / thread name / new thread used before the record that announces it, dumps cut in the middle of operations) x class lists x subclass lists x '
             'tid/process {none, set} x {list, tuple}: each request equals the same request on a fresh parser; filter settings equal '
-            'and same type afterwards. (X) all sequences of <=2 (quick) / <=3 (thorough) operations over 12 kinds through which one thread depends on what another thread emitted (global string announced by a sibling and used by dlopen, a thread declared by its parent, a process renamed by another thread, a terminate record naming another thread) x tid {None,1,2,7} x process {None, static name, declared name, declared pid, renamed name} x class lists {[], [4], [0x1f], [4,0x1f]}: same oracle. (C) the command-line tool: `traces --no-color` with every tid/process/class/subclass option combination prints the library\'s lines for the same settings. states = distinct configurations; transitions = requests; non-trivial = a non-empty filter.')
+            'and same type afterwards. (X) all sequences of <=2 (quick) / <=3 (thorough) operations over 12 kinds through which one thread depends on what another thread emitted (global string announced by a sibling and used by dlopen, a thread declared by its parent, a process renamed by another thread, a terminate record naming another thread) x tid {None,1,2,7} x process {None, static name, declared name, declared pid, renamed name} x class lists {[], [4], [0x1f], [4,0x1f]} x subclass lists {[], [0x0302], [0x0702]}: same oracle. (B) is also run with all requests of a history MADE before any is read, then read in order and in reverse order. (C) the command-line tool: `traces --no-color` with every tid/process/class/subclass option combination prints the library\'s lines for the same settings. states = distinct configurations; transitions = requests; non-trivial = a non-empty filter.')
     assumptions = ('streams do not rely on table updates made by records of a class that a CLASS filter removes, other than the helper classes the statement names '
                    '(kernel trace records, lookups); records of OTHER THREADS that a thread / process filter would hide are relied on (sub-space X): the statement demands identical text',)
 
@@ -273,7 +315,10 @@ class C13(Check):
         """streams in which one thread's traces depend on records ANOTHER thread emitted (a string announced by a sibling, a
         thread declared by its parent, a process renamed by another thread) x thread / process / class filters: the filtered
         listing is still the unfiltered one restricted to the filter."""
-        cfgs = [(t, p, c, ()) for t in (None, 1, 2, 7) for p in (None, 'A', 'kid', '70', 'Z1') for c in ((), (4,), (0x1f,), (4, 0x1f))]
+        # subclass lists: none; a file-system and a kernel-trace subclass no decoder belongs to (they select nothing, and must not stop
+        # the tool from reading the helper classes)
+        cfgs = [(t, p, c, sc) for t in (None, 1, 2, 7) for p in (None, 'A', 'kid', '70', 'Z1') for c in ((), (4,), (0x1f,), (4, 0x1f))
+                for sc in ((), (0x0302,), (0x0702,))]
         for opseq in seqs_:
             for cfg in cfgs:
                 bad = judge_commute(opseq, cfg, False)
@@ -342,9 +387,19 @@ class C13(Check):
                             if bad:
                                 acc.violation(bad[0], {'kind': 'B', 'stream': si, 'cfg': [tid, proc, list(cl), list(sc)], 'as_tuple': as_tuple,
                                                        'requests': list(hist)}, bad[1])
+                            if len(hist) >= 2 and not as_tuple:
+                                for reverse in (False, True):
+                                    bad = judge_lazy(si, cfg, hist, reverse)
+                                    acc.case(nontrivial=True, transitions=2 * len(hist), state=h64((cfg, 'lazy')), outcome=h64((si, hist, reverse, bad is None)))
+                                    if bad:
+                                        acc.violation(bad[0], {'kind': 'B-lazy', 'stream': si, 'cfg': [tid, proc, list(cl), list(sc)], 'requests': list(hist), 'reverse': reverse}, bad[1])
             acc.sample({'stream': [list(o) for o in HIST_STREAMS[si]], 'requests': ['callstacks', 'traces', 'callstacks']})
 
     def replay(self, case):
+        if case['kind'] == 'B-lazy':
+            c = case['cfg']
+            bad = judge_lazy(case['stream'], (c[0], c[1], tuple(c[2]), tuple(c[3])), tuple(case['requests']), case['reverse'])
+            return [bad] if bad else []
         if case['kind'] == 'cli':
             from mc.run import Acc
             acc = Acc()
